@@ -72,7 +72,7 @@ PROPS = {
     "C10": P(["vclock"], ["vclock.*", "dot.*"], quick=1000, all_inputs=True, exact=["vclock.*", "dot.*"],
              extra_as=["clocks are well-formed (no stored zero): proved to be preserved by every API call; a stored zero is only constructible through the public field"]),
     "C11": P(["gcounter", "pncounter", "gset", "maxreg", "minreg", "lww"],
-             ["gcounter.apply", "gcounter.merge", "gcounter.inc", "gcounter.inc_many", "gcounter.read",
+             ["gcounter.apply", "gcounter.merge", "gcounter.inc", "gcounter.inc_many", "gcounter.read", "gcounter.bigread", "pncounter.bigread",
               "pncounter.apply", "pncounter.merge", "pncounter.inc", "pncounter.dec", "pncounter.inc_many", "pncounter.dec_many", "pncounter.read",
               "gset.*", "maxreg.*", "minreg.*", "lww.apply", "lww.merge", "lww.validate_op", "lww.validate_merge", "lww.new", "lww.default"],
              exact=["lww.validate_op", "lww.validate_merge"],   # C11_lww_conflict fixes the verdict
